@@ -44,7 +44,7 @@ def check(node: IndexExpr, errors: list[Error]) -> None:
     match node:
         case IndexExpr(
             base=CallExpr(callee=NameExpr() as name_node, args=[arg]),
-            index=SliceExpr(begin_index=IntExpr(value=2), end_index=None),
+            index=SliceExpr(begin_index=IntExpr(value=2), end_index=None, stride=None),
         ) if name_node.fullname in FUNC_CONVERSIONS:
             arg = stringify(arg)  # type: ignore
 
